@@ -470,6 +470,9 @@ func (c *HTTPClient) discover() error {
 			c.topology.Update(primary, secondaries...)
 			break
 		}
+
+		// do not ask this endpoint again (a 4xx answer leaves it alive in doReq)
+		e.MarkAsDead()
 	}
 
 	return nil
